@@ -155,7 +155,7 @@ def run(seed=1, nslow=2, nfast=3, rounds=2, nelem=7000, size=1024, nsmall=3500):
         srv.stop()
 
 
-def subscribed_pipeline(seed=1, batches=40):
+def subscribed_pipeline(seed=1, batches=40, min_pushes=1500, max_seconds=12.0):
     """A connection that is subscribed to a channel AND pipelines ordinary commands with replies larger than any write
     buffer, while other connections publish to that channel as fast as they can. Pushes may appear between replies, never
     inside one: the byte stream must decode into well-formed values, the replies complete and in request order, the
@@ -183,12 +183,18 @@ def subscribed_pipeline(seed=1, batches=40):
             except Exception:
                 pass
 
-        pubs = [threading.Thread(target=publisher, args=(i,)) for i in range(2)]
+        pubs = [threading.Thread(target=publisher, args=(i,)) for i in range(3)]
         for t in pubs:
             t.start()
         last = {}
         try:
-            for b in range(batches):
+            t_start = time.time()
+            b = -1
+            while True:
+                b += 1
+                # at least `batches` batches, and go on until enough pushes were interleaved (a slow machine publishes slowly)
+                if b >= batches and (stats["pushes"] >= min_pushes or time.time() - t_start > max_seconds):
+                    break
                 n1, n2 = ("a%d" % b).encode(), ("b%d" % b).encode()
                 a.sendall(server.encode(["PING", n1]) + server.encode(["LRANGE", "sp-big", "0", "-1"]) + server.encode(["PING", n2]) + server.encode(["LLEN", "sp-big"]))
                 want = [("$", n1), ("*", [("$", e) for e in elems]), ("$", n2), (":", len(elems))]
